@@ -277,6 +277,10 @@ mut("tr_revert_same_width_ext_grouping", V1,
     "      # Nothing to extend, but the operand must stay one operand\n      return s.visit_expr_wrap( node.value )\n    value = s.visit( node.value )\n    return f\"{{ {{ {padded_nbits} {{ 1'b0 }} }}, {value} }}\"",
     "      return s.visit( node.value )\n    value = s.visit( node.value )\n    return f\"{{ {{ {padded_nbits} {{ 1'b0 }} }}, {value} }}\"", ["C03"])
 
+mut("textwave_revert_own_namespace", "pymtl3/passes/tracing/PrintTextWavePass.py",
+    "    exec(compile( src, filename=\"temp\", mode=\"exec\"), g_dict, l_dict)",
+    "    s = top\n    exec(compile( src, filename=\"temp\", mode=\"exec\"), globals().update(locals()), l_dict)", ["C16"])
+
 
 def load_extra():
   p = os.path.join(VERIF, "tools", "mutants_extra.json")
